@@ -1,6 +1,7 @@
 import ProductMD.Model.Ini
 import ProductMD.Model.Customs
 import ProductMD.Generated.Tables
+import ProductMD.Generated.TreeInfoGeneral
 /-!
 Model of `productmd/treeinfo.py` for the CURRENT format: the writer (`TreeInfo.serialize`, every section class,
 the legacy `[general]` mirror) and the reader for header versions > 0.3 (the `deserialize_1_0` branches).
@@ -307,10 +308,16 @@ def chosenKey (tops : List Variant) (mainVariant : Option Str) : Except Err Str 
     | k :: _ => .ok k
     | [] => .error .indexError
 
+/-- the `tree.arch` values for which `General.serialize` falls back from path attribute `field` to `srcField`: the constants
+of that `elif`, read from the source by the translator (`Generated/TreeInfoGeneral.lean`); `C17_src_fallback_documented` is the
+obligation that they are `src` and nothing else -/
+def srcFallbackArches (field srcField : Str) : List Str :=
+  ((Gen.TREEINFO_GENERAL_PATH_BRANCHES.find? fun b => b.2.1 == field && b.2.2.1 == srcField).map (·.2.2.2)).getD []
+
 def generalPath (arch : Str) (paths : List (Str × Str)) (field srcField : Str) : Option Str :=
   match paths.lookup field with
   | some p => some p
-  | none => if arch == "src".toList then paths.lookup srcField else none
+  | none => if (srcFallbackArches field srcField).contains arch then paths.lookup srcField else none
 
 /-- `if value is not None: parser.set(section, key, value)` -/
 def setOpt (d : Ini) (s k : Str) : Option Str → Except Err Ini
